@@ -94,7 +94,7 @@ PROPS = {
         "atomics": True,
         "modules": ["ALock.Props.C02"],
         "prims": ["rwlock"],
-        "fields": ["out", "words"],
+        "fields": ["out", "words", "at"],
         "monitors": ["C02"],
         "assumptions": ["poll-granular theorem: every call/poll is atomic",
                         "readers-overflow aborts (> isize::MAX readers) are outside the model"],
@@ -104,7 +104,7 @@ PROPS = {
         "atomics": True,
         "modules": ["ALock.Props.C06"],
         "prims": ["rwlock"],
-        "fields": ["out", "w", "words", "ev"],
+        "fields": ["out", "w", "words", "ev", "at"],
         "monitors": ["C06"],
         "assumptions": ["polls are atomic (single-threaded executor)",
                         "reading: a live upgrade future that was never polled holds the lock it consumed (clause (i) says so explicitly)"],
@@ -113,7 +113,7 @@ PROPS = {
     "C12": {
         "modules": ["ALock.Props.C12"],
         "prims": ["rwlock"],
-        "fields": ["out", "w", "words", "ev"],
+        "fields": ["out", "w", "words", "ev", "at"],
         "monitors": ["C12"],
         "assumptions": ["polls are atomic (single-threaded executor)"],
         "partial": ["thread interleavings"],
@@ -121,7 +121,7 @@ PROPS = {
     "C10": {
         "modules": ["ALock.Props.C10"],
         "prims": ["mutex", "sem", "rwlock"],
-        "fields": ["out", "w", "words", "ev"],
+        "fields": ["out", "w", "words", "ev", "at"],
         "monitors": ["C10", "C05", "C06", "C07"],  # a waiter left asleep by a cancellation is a trace of it
         "assumptions": ["'as if never started' = same resources and same grants (exact accounting over live operations), not trace equality: a cancelled notified waiter causes one extra wake-up of the next waiter",
                         "polls are atomic"],
@@ -130,7 +130,7 @@ PROPS = {
     "C14": {
         "modules": ["ALock.Props.C14"],
         "prims": ["mutex", "sem", "rwlock"],
-        "fields": ["out", "words", "ev"],
+        "fields": ["out", "words", "ev", "at"],
         "monitors": ["C14", "C01", "C02", "C03"],
         "assumptions": ["every try_* is one atomic call in the model; the 'never succeeds in conflict' half under interleavings is covered by the small-step models only"],
         "partial": ["interleavings"],
@@ -139,7 +139,7 @@ PROPS = {
         "miri": True,
         "modules": ["ALock.Props.C15"],
         "prims": ["mutex", "sem", "rwlock"],
-        "fields": ["out", "strong", "dropped"],
+        "fields": ["out", "strong", "dropped", "at"],
         "monitors": ["C15"],
         "assumptions": ["Arc itself (counting, drop at zero) is modelled, not verified; the harness reads Arc::strong_count and a payload drop counter after every operation",
                         "use-after-free that does not change the count is outside this check (Miri would be the tool)"],
@@ -149,7 +149,7 @@ PROPS = {
         "atomics": True,
         "modules": ["ALock.Props.C11"],
         "prims": ["rwlock"],
-        "fields": ["out", "words"],
+        "fields": ["out", "words", "at"],
         "monitors": ["C11", "C02"],
         "assumptions": ["poll-granular theorem: every call/poll is atomic",
                         "'the value changes only through the converting task' is read as: only the holder of the slot can obtain write access (C02 + C11_slot)"],
@@ -159,7 +159,7 @@ PROPS = {
         "atomics": True,
         "modules": ["ALock.Props.C01"],
         "prims": ["mutex"],
-        "fields": ["out", "words"],
+        "fields": ["out", "words", "at"],
         "monitors": ["C01"],
         "assumptions": [
             "poll-granular theorem: every call/poll is atomic; interleavings of atomic operations and the happens-before clause are not covered by this theorem (see partial)",
@@ -171,7 +171,7 @@ PROPS = {
         "atomics": True,
         "modules": ["ALock.Props.C05"],
         "prims": ["mutex"],
-        "fields": ["out", "w", "words", "ev"],
+        "fields": ["out", "w", "words", "ev", "at"],
         "monitors": ["C05"],
         "assumptions": ["polls are atomic (single-threaded executor)",
                         "blocking waiters: a parked thread is re-polled when woken (parking unparks the right thread)"],
@@ -180,7 +180,7 @@ PROPS = {
     "C13": {
         "modules": ["ALock.Props.C13"],
         "prims": ["mutex"],
-        "fields": ["out", "w", "words", "ev"],
+        "fields": ["out", "w", "words", "ev", "at"],
         "monitors": ["C13"],
         "assumptions": ["the 0.5 ms test is scripted through hook H1 (both outcomes at every evaluation point)",
                         "polls are atomic; the try_lock clause under thread interleavings follows from the word invariant of the atomic-granularity model (C01_interleaved)"],
@@ -190,7 +190,7 @@ PROPS = {
         "atomics": True,
         "modules": ["ALock.Props.C03"],
         "prims": ["sem"],
-        "fields": ["out", "words"],
+        "fields": ["out", "words", "at"],
         "monitors": ["C03"],
         "assumptions": [
             "usize wrap-around of the permit counter is outside the model: histories with init + added < 2^64",
@@ -202,7 +202,7 @@ PROPS = {
         "atomics": True,
         "modules": ["ALock.Props.C07"],
         "prims": ["sem"],
-        "fields": ["out", "w", "words", "ev"],
+        "fields": ["out", "w", "words", "ev", "at"],
         "monitors": ["C07"],
         "assumptions": ["polls are atomic (single-threaded executor); a notification racing a registration is not modelled"],
         "partial": ["thread interleavings (deadlock under threads) are not covered by the theorem"],
